@@ -26,6 +26,24 @@ while true do i = i + 1 if i % 7 == 0 then emit(i) end end`},
 	{name: "tight_loop_silent", noref: true, src: `
 local i = 0
 while true do i = i + 1 end`},
+	// loops whose body compiles to zero instructions: the only instruction executed is the loop's own
+	{name: "empty_for_huge", noref: true, src: `
+for i = 1, math.huge do end`},
+	{name: "empty_for_down_and_tiny_step", noref: true, src: `
+for i = 1, 3 do end
+for i = 0, -math.huge, -1 do end`},
+	{name: "empty_for_step_absorbed", noref: true, src: `
+for i = 1, 2, 1e-17 do end`},
+	{name: "empty_for_in_pcall_retry", noref: true, src: `
+while true do pcall(function() for i = 1, math.huge do end end) end`},
+	{name: "empty_for_in_coroutines", noref: true, src: `
+local w = coroutine.wrap(function() for i = 1, math.huge do end end)
+local co = coroutine.create(function() pcall(w) for i = 1, math.huge do end end)
+while true do coroutine.resume(co) co = coroutine.create(function() for i = 1e308, math.huge do end end) end`},
+	{name: "empty_while_repeat_goto", noref: true, src: `
+pcall(function() while true do end end)
+pcall(function() repeat until false end)
+::a:: goto a`},
 	{name: "for_loops_terminating", reason: "deadline of the harness", src: `
 local s = 0
 for i = 1, 12 do s = s + i emit(i, s) end
@@ -195,19 +213,42 @@ func constructs(tier string) []job {
 	js = append(js, job{Name: "resume_yielding_chunk", Class: "api_resume/yielding_chunk", Mode: "resume", Cap: acap, AllK: true, Src: `
 local i = 0
 while true do i = i + 1 emit(i) local x = coroutine.yield(i) pcall(function() emit("p", x) coroutine.wrap(function() emit("w") end)() end) end`})
+	// the context is attached to a Go-created worker thread (the main state has none) and the
+	// non-terminating work happens in coroutines the script creates (create, wrap, nested)
+	for _, name := range []string{"coroutine_ping_pong", "coroutine_wrap_generator", "coroutine_nested", "coroutine_retry_loops_inside", "empty_for_in_coroutines", "nested_protected"} {
+		for _, c := range constructList {
+			if c.name == name {
+				js = append(js, job{Name: c.name + "/thread", Class: "worker_thread_ctx/" + c.name, Src: c.src, Cap: acap, AllK: true, Mode: "thread", NoRef: c.noref})
+			}
+		}
+	}
+	js = append(js, job{Name: "worker_spawns_looping_coroutines", Class: "worker_thread_ctx/spawn", Mode: "thread", Cap: acap, AllK: true, Src: `
+local function spin(tag) return function() local n = 0 while true do n = n + 1 if n % 5 == 0 then emit(tag, n) coroutine.yield(n) end end end end
+local a = coroutine.wrap(spin("a"))
+local b = coroutine.create(function() local inner = coroutine.wrap(spin("in")) while true do emit("b", inner()) coroutine.yield() end end)
+while true do emit(a()) emit(coroutine.resume(b)) end`})
 	// SetContext; RemoveContext; cancel: nothing polls any more
-	js = append(js, job{Name: "remove_context", Class: "remove_context", RemoveCtx: true, Cap: 100000, Ks: []int{-1}, Src: constructList[2].src + `
+	js = append(js, job{Name: "remove_context", Class: "remove_context", RemoveCtx: true, Cap: 100000, Ks: []int{-1}, Src: srcOf("for_loops_terminating") + `
 local co = coroutine.wrap(function() for i = 1, 3 do emit("co", i) coroutine.yield() end end)
 co() co() pcall(function() emit("in") error("x") end)`})
 	// calibration: straight-line chunks, one per shape
-	shapes := []string{"e", "eeee", "leael", "aaaa", "elelelaeea", "lllleeeeaaaaeeee"}
+	shapes := []string{"e", "eeee", "leael", "aaaa", "elelelaeea", "lllleeeeaaaaeeee", "f", "efeg", "Fge", "lfFaGe"}
 	if tier == "thorough" {
 		shapes = append(shapes, strings.Repeat("ela", 40), strings.Repeat("e", 100), strings.Repeat("al", 60)+"e")
 	}
 	for i, sh := range shapes {
-		js = append(js, job{Name: fmt.Sprintf("calib_%d", i), Class: "calibration", Src: calibSrc(sh), Cap: 2000, AllK: true, Calib: true})
+		js = append(js, job{Name: fmt.Sprintf("calib_%d", i), Class: "calibration", Src: calibSrc(sh), Cap: 2000, AllK: true, Calib: true, Shape: sh})
 	}
 	return js
+}
+
+func srcOf(name string) string {
+	for _, c := range constructList {
+		if c.name == name {
+			return c.src
+		}
+	}
+	panic("no construct " + name)
 }
 
 // calibSrc: straight-line chunk; e = emit(i), l = local xi = i, a = x0 = x0 + i.
@@ -222,29 +263,81 @@ func calibSrc(shape string) string {
 			fmt.Fprintf(&sb, "local y%d = %d\n", i, i)
 		case 'a':
 			fmt.Fprintf(&sb, "x0 = x0 + %d\n", i)
+		case 'f', 'g', 'F', 'G':
+			n, body := calibLoop(c)
+			fmt.Fprintf(&sb, "for j%d = 1, %d do %s end\n", i, n, body)
 		}
 	}
 	return sb.String()
 }
 
-// calibScript classifies the instructions of the compiled chunk: 1 = CALL (every call of a
-// calibration chunk calls emit), 2 = RETURN, 0 = anything else.  Derived from the compiler's output,
-// not from the polling loop.
-func calibScript(src string) []int {
+// calibLoop: f/g = numeric for loops with an EMPTY body (5 / 23 iterations), F/G = with a body that
+// emits (3 / 4 iterations).
+func calibLoop(c rune) (int, string) {
+	switch c {
+	case 'f':
+		return 5, ""
+	case 'g':
+		return 23, ""
+	case 'F':
+		return 3, "emit(0)"
+	}
+	return 4, "x0 = x0 + 1 emit(x0)"
+}
+
+// calibScript lists the classes of the instructions the chunk EXECUTES, in order: 1 = CALL (every
+// call of a calibration chunk calls emit), 2 = RETURN, 0 = anything else.  It is derived from the
+// compiler's output (proto.Code) by following FORPREP/FORLOOP with the iteration counts known from
+// the source -- not from the polling loop.
+func calibScript(src, shape string) []int {
 	L := lua.NewState()
 	fn, err := L.LoadString(src)
 	if err != nil {
 		return nil
 	}
+	var counts []int
+	for _, c := range shape {
+		if strings.ContainsRune("fgFG", c) {
+			n, _ := calibLoop(c)
+			counts = append(counts, n)
+		}
+	}
+	code := fn.Proto.Code
+	sbx := func(inst uint32) int { return int(inst&0x3ffff) - 131071 }
+	left := map[int]int{} // FORLOOP pc -> iterations still to run
+	nloop := 0
+	for pc := 0; pc < len(code); pc++ {
+		if int(code[pc]>>26) == lua.OP_FORLOOP {
+			if nloop < len(counts) {
+				left[pc] = counts[nloop]
+			}
+			nloop++
+		}
+	}
 	var out []int
-	for _, inst := range fn.Proto.Code {
+	for pc, steps := 0, 0; pc < len(code) && steps < 100000; steps++ {
+		inst := code[pc]
 		switch int(inst >> 26) {
 		case lua.OP_CALL:
 			out = append(out, 1)
+			pc++
 		case lua.OP_RETURN:
 			out = append(out, 2)
+			return out
+		case lua.OP_FORPREP:
+			out = append(out, 0)
+			pc += 1 + sbx(inst)
+		case lua.OP_FORLOOP:
+			out = append(out, 0)
+			if left[pc] > 0 {
+				left[pc]--
+				pc += 1 + sbx(inst)
+			} else {
+				pc++
+			}
 		default:
 			out = append(out, 0)
+			pc++
 		}
 	}
 	return out
